@@ -38,6 +38,9 @@ def run(unit, functions, repo, scratch, timeout=1800, deep=False):
     for line in open(src):
         if line.startswith("//! host:"):
             host = line.split(":", 1)[1].strip()
+        if line.startswith("//! functions:") and not functions:
+            # the whole harness, still one process per function (a panic or a hang is attributed to its function)
+            functions = line.split(":", 1)[1].split()
     with open(os.path.join(copy, "src", "lib.rs"), "a") as f:
         f.write("\nextern crate self as slotted_egraphs;\n")
         if host is None or host == "src/lib.rs":
@@ -72,6 +75,13 @@ def run(unit, functions, repo, scratch, timeout=1800, deep=False):
     open(os.path.join(runner, "src", "main.rs"), "w").write(
         'fn main() {\n    let only: Vec<String> = std::env::args().skip(1).collect();\n'
         '    std::panic::set_hook(Box::new(|info| { let c = slotted_egraphs::verif_bounded::VERIF_CASE.lock().map(|g| g.clone()).unwrap_or_default(); println!("PANICKED {} ||| case: {}", info.to_string().replace("\\n", " "), c); }));\n'
+        '    // watchdog: a case that makes no progress for VERIF_HANG_S seconds is reported with the case being exercised\n'
+        '    let limit: u64 = std::env::var("VERIF_HANG_S").ok().and_then(|x| x.parse().ok()).unwrap_or(120);\n'
+        '    std::thread::spawn(move || { let mut last = usize::MAX; let mut since = std::time::Instant::now(); loop { std::thread::sleep(std::time::Duration::from_millis(500));\n'
+        '        let c = slotted_egraphs::verif_bounded::VERIF_CASES.load(std::sync::atomic::Ordering::Relaxed);\n'
+        '        if c != last { last = c; since = std::time::Instant::now(); } else if since.elapsed().as_secs() >= limit {\n'
+        '            let case = slotted_egraphs::verif_bounded::VERIF_CASE.lock().map(|g| g.clone()).unwrap_or_default();\n'
+        '            println!("HUNG no progress for {} s (a case normally takes milliseconds) ||| case: {}", limit, case); std::process::exit(3); } } });\n'
         '    let f = slotted_egraphs::verif_bounded::run(&only);\n    for x in &f { println!("{}", x); }\n'
         '    println!("BOUNDED-CASES {}", slotted_egraphs::verif_bounded::VERIF_CASES.load(std::sync::atomic::Ordering::Relaxed));\n    println!("BOUNDED-DONE {}", f.len());\n}\n')
     lock = os.path.join(repo, "Cargo.lock")
@@ -104,6 +114,7 @@ def run(unit, functions, repo, scratch, timeout=1800, deep=False):
             renv = dict(os.environ)
             if deep:
                 renv["VERIF_BOUNDED_DEEP"] = "1"
+                renv.setdefault("VERIF_HANG_S", "600")
             q = subprocess.run([exe] + ([fn] if fn else []), cwd=runner, env=renv, stdout=subprocess.PIPE, stderr=subprocess.PIPE, text=True, timeout=timeout)
             fdone = False
             for line in q.stdout.split("\n"):
@@ -117,7 +128,10 @@ def run(unit, functions, repo, scratch, timeout=1800, deep=False):
                     fdone = True
             if not fdone:
                 pl = [l for l in q.stdout.split("\n") if l.startswith("PANICKED ")]
-                if pl and fn:
+                hl = [l for l in q.stdout.split("\n") if l.startswith("HUNG ")]
+                if hl and fn:
+                    fails.append(dict(function=fn, clause="C08:%s.terminates" % fn.split("::")[-1], input=hl[-1][len("HUNG "):][:600] + vnote))
+                elif pl and fn:
                     fails.append(dict(function=fn, clause="C08:%s.no-panic" % fn.split("::")[-1], input=pl[-1][len("PANICKED "):][:600] + vnote))
                 else:
                     done = False
